@@ -101,6 +101,12 @@ def correspondence(r):
             r.violation({"component": "load_module_from_file_object", "file_magic": k, "reported_magic": got,
                          "why": "load_module reports another magic (and reads the file by that magic's rules) than the one the file carries"})
             break
+    for (a, b), got in gen.get("opcode_for_unlisted_patch", []):
+        r.case(("unlisted", a, b), nontrivial=True)
+        if got != [a, b]:
+            r.violation({"component": "op_imports.get_opcode_module", "version": [a, b, 99], "opcode_table_version": got,
+                         "why": "a patch release the tables do not list is not given its own series' opcode table"})
+            break
     # magic2int on byte strings of length 0..6
     bss = [[], [1], [1, 2, 3], [1, 2, 3, 4, 5], [0x99, 0x02, 0x99, 0x00], [0xcb, 0x0d, 13, 10]]
     for _ in range(600 if r.tier == "quick" else 5000):
